@@ -35,7 +35,8 @@ def tx_inputs(case: gen_ref.Case, anno, genome):
             'start_nf': tx_model.is_cds_start_nf(),
             'end_nf': tx_model.is_mrna_end_nf(),
             'sec': [int(s.start) for s in tx_seq.selenocysteine],
-            'vars': [as_var(v, tx_seq, gene_seq_of(anno, genome, tx_model)) for v in series.transcriptional],
+            'vars': [x for v in series.transcriptional
+                     for x in as_vars(v, tx_seq, gene_seq_of(anno, genome, tx_model), series.intronic)],
             'n_fusion': len(series.fusion), 'n_circ': len(series.circ_rna),
             'n_intronic': len(series.intronic),
         }
@@ -62,6 +63,65 @@ def as_var(v, tx_seq, gene_seq):
     return (s, e, str(v.ref), str(v.alt), v.type, v.id)
 
 
+def _sep_subsets(items):
+    """non-empty sub-collections of (start, end, …) tuples that are ascending and strictly
+    separated (neither overlapping nor adjacent)"""
+    items = sorted(items, key=lambda x: x[0])
+    out = []
+
+    def go(i, cur):
+        if i == len(items):
+            if cur:
+                out.append(list(cur))
+            return
+        go(i + 1, cur)
+        if not cur or cur[-1][1] < items[i][0]:
+            cur.append(items[i])
+            go(i + 1, cur)
+            cur.pop()
+    go(0, [])
+    return out
+
+
+def as_vars(v, tx_seq, gene_seq, intronic):
+    """`as_var(v)` plus, for an alternative-splicing Insertion / Substitution whose inserted
+    stretch (donor range of the gene) contains small records, one further replacement per
+    separated combination of those records: same span, the inserted stretch carrying the
+    combination, ids = (record id, nested ids…).  Such a replacement can only be used when the
+    splicing record is, and never together with another form of it (they overlap)."""
+    base = as_var(v, tx_seq, gene_seq)
+    if v.type not in ('Insertion', 'Substitution'):
+        return [base]
+    ds, de = v.get_donor_start(), v.get_donor_end()
+    nested = []
+    for w in intronic:
+        if w.type in ('SNV', 'INDEL', 'RNAEditingSite', 'MNV'):
+            a, b = int(w.location.start), int(w.location.end)
+            if ds <= a and b <= de:
+                nested.append((a, b, str(w.ref), str(w.alt), w.id))
+    out = [base]
+    if not nested or len(nested) > 4:
+        return out
+    s, e = base[0], base[1]
+    tx = str(tx_seq.seq)
+    for comb in _sep_subsets(nested):
+        donor, pos = [], ds
+        for (a, b, _r, alt, _i) in comb:
+            donor.append(gene_seq[pos:a])
+            donor.append(alt)
+            pos = b
+        donor.append(gene_seq[pos:de])
+        d = ''.join(donor)
+        alt = (tx[s:s + 1] + d) if v.type == 'Insertion' else d
+        out.append((s, e, base[2], alt, v.type, (v.id,) + tuple(c[4] for c in comb)))
+    return out
+
+
+def vid_field(vid, idmap: Dict[str, int]) -> str:
+    ids = vid if isinstance(vid, tuple) else (vid,)
+    return '+'.join(str(idmap.setdefault(i, len(idmap))) for i in ids)
+
+
 def resolve_exc(kw: dict) -> Optional[str]:
     exc = kw.get('cleavage_exception')
     if exc == 'auto':
@@ -81,7 +141,7 @@ def var_field(tx: dict, idmap: Dict[str, int]) -> Optional[str]:
     for (s, e, r, a, t, vid) in tx['vars']:
         if t not in CLS:
             return None
-        vs.append(f'{s}:{e}:{r}:{a}:{CLS[t]}:{idmap.setdefault(vid, len(idmap))}')
+        vs.append(f'{s}:{e}:{r}:{a}:{CLS[t]}:{vid_field(vid, idmap)}')
     return ';'.join(vs)
 
 
@@ -151,15 +211,20 @@ def build_input(seed: int, opts: dict):
     rng = random.Random(seed)
     case = gen_ref.Case(gen_ref.work_dir('cv'))
     with gen_ref.quiet():
-        gen_ref.make_reference(case, seed, 1)
+        gen_ref.make_reference(case, seed, 1, sec_near_start=opts.get('sec_near_start', 0.25))
         genome, anno, _ = gen_ref.load_reference(case)
         recs = []
+        if opts.get('coding_only') and not any(m.is_protein_coding for m in anno.transcripts.values()):
+            return case, genome, anno, recs, rng      # no GVF written: the worker counts it as empty
+        special = rng.choice(opts['special']) if opts.get('special') else None
+        case.meta['special'] = special
         for tx_id in anno.transcripts:
             n = rng.randint(*opts.get('per_tx', (1, 6)))
             recs += gen_ref.dense_variants(anno, genome, tx_id, rng, n,
                                            max_size=opts.get('max_size', 4),
                                            snv_frac=opts.get('snv_frac', 0.55),
-                                           window=opts.get('window', 40))
+                                           window=opts.get('window', 40),
+                                           special=special)
         if opts.get('as_frac', 0) > 0:
             import random as _r
             from moPepGen import fake
@@ -173,6 +238,16 @@ def build_input(seed: int, opts: dict):
                             continue
                         if rec.id not in {r.id for r in recs}:
                             recs.append(rec)
+                            if rng.random() < opts.get('nested_frac', 0.0):
+                                try:
+                                    for nv in gen_ref.nested_variants(anno, genome, tx_id, rec, rng,
+                                                                      rng.choice([1, 1, 2]),
+                                                                      opts.get('nested_kinds', ('SNV', 'SNV', 'INS', 'DEL'))):
+                                        if nv.id not in {r.id for r in recs}:
+                                            recs.append(nv)
+                                            case.meta['nested'] = case.meta.get('nested', 0) + 1
+                                except Exception:   # noqa
+                                    pass
         gen_ref.write_gvfs(case, recs)
     return case, genome, anno, recs, rng
 
@@ -190,6 +265,12 @@ def cv_worker(job):
             return out
         kw = default_kw(rng, opts.get('vary', True), opts.get('exception'), opts.get('enzymes'))
         kw.update(opts.get('kw', {}))
+        if case.meta.get('special') == 'sec' and rng.random() < 0.8 \
+                and 'selenocysteine_termination' not in opts.get('kw', {}):
+            kw['selenocysteine_termination'] = True
+        if case.meta.get('special'):
+            kw['min_length'] = min(kw['min_length'], 7)
+            out['stats']['special_' + case.meta['special']] = 1
         canon = pipe.canonical_pool(case, **kw)
         store: list = []
         if opts.get('stages'):
@@ -213,6 +294,8 @@ def cv_worker(job):
         if tx['sec']:
             out['stats']['selenoprotein'] = 1
         out['stats'][f'nvars_{min(len(tx["vars"]), 9)}'] = 1
+        if any(isinstance(v[5], tuple) for v in tx['vars']):
+            out['stats']['with_nested_in_splicing_insertion'] = 1
         out['stats'][f'enzyme_{kw["cleavage_rule"]}'] = 1
         if run.status != 'ok':
             out['stats']['crash'] = 1
@@ -239,16 +322,40 @@ def cv_worker(job):
         out['stats']['real_peptides'] = len(run.fasta)
         # header entries for the witness check
         out['set_line'] = set_line(tx, kw, idmap, exc)
+        # forms of a splicing record that carry nested records (see as_vars): an entry naming
+        # nested records is checked against the record list in which that splicing record has
+        # only the form the entry names
+        multi = [v for v in tx['vars'] if isinstance(v[5], tuple)]
+        nested_num = {idmap[i] for v in multi for i in v[5][1:] if i in idmap}
         wl = []
         for seq_, hdrs in run.fasta.items():
             for h in hdrs:
                 for entry in h.split(' '):
                     ids, sect, w2f, problem = parse_entry(entry, tx_id, idmap)
                     if problem:
-                        wl.append((None, seq_, entry, problem))
-                    else:
-                        wl.append(('\t'.join(['S', 'w', '1' if sect else '0', '1' if w2f else '0',
-                                              ','.join(str(i) for i in ids), seq_]), seq_, entry, None))
+                        wl.append((None, seq_, entry, problem, None))
+                        continue
+                    override = None
+                    if nested_num and set(ids) & nested_num:
+                        named = set(ids)
+                        inv = {n: k for k, n in idmap.items()}
+                        names = {inv[i] for i in named}
+
+                        def idset(v):
+                            return set(v[5]) if isinstance(v[5], tuple) else {v[5]}
+                        keep = []
+                        for v in tx['vars']:
+                            forms = [w for w in tx['vars'] if w[0] == v[0] and w[1] == v[1] and w[4] == v[4]
+                                     and idset(w) <= names and idset(v) < idset(w)]
+                            if isinstance(v[5], tuple) and not idset(v) <= names:
+                                continue
+                            if forms:
+                                continue        # a larger named form of the same record exists
+                            keep.append(v)
+                        override = set_line(dict(tx, vars=keep), kw, idmap, exc)
+                    wl.append(('\t'.join(['S', 'w', '1' if sect else '0', '1' if w2f else '0',
+                                          ','.join(str(i) for i in ids), seq_]), seq_, entry, None,
+                               override))
         out['witness'] = wl
         out['entries'] = [e for _s, hdrs in run.fasta.items() for h in hdrs for e in h.split(' ')]
         out['headers'] = {s: h for s, h in run.fasta.items()}
